@@ -754,7 +754,7 @@ func post(a *core.Agg) string {
 	need("upgrade_history_expected_reject", 100)
 	need("upgrade_history_expected_accept", 50)
 	need("upgrade_history_reuse_without_new_values_expected_reject", 20)
-	need("expected_accept_with_enabled_namesake_schemas", 10)
+	need("expected_accept_with_enabled_namesake_schemas", 3)
 	need("accepted_real_op_mutations", 1)
 	need("accepted_real_op_storage_writes", 1)
 	for _, e := range []string{"install-dry-run", "install", "upgrade", "template", "lint"} {
